@@ -21,7 +21,7 @@ CONE = ["Props/C12.v", "Props/C12Tree.v", "Props/C12Frag.v", "Proofs/FragLayout.
 ITER = {b"moov", b"trak", b"mdia", b"minf", b"stbl", b"udta", b"mvex", b"dinf"}
 # sample entries that search their child boxes for the codec configuration (avc1 -> avcC, mp4a -> esds): boxes may be inserted among the child boxes
 ENTRY_ITER = {b"avc1", b"mp4a"}
-PADDABLE = {b"mvhd", b"tkhd", b"mdhd", b"vmhd", b"smhd", b"stts", b"ctts", b"stsc", b"stsz", b"stss", b"stco", b"co64", b"hdlr", b"esds"}
+PADDABLE = {b"mvhd", b"tkhd", b"mdhd", b"vmhd", b"smhd", b"stts", b"ctts", b"stsc", b"stsz", b"stss", b"stco", b"co64", b"hdlr"}
 LARGE_OK = ITER | PADDABLE | {b"stsd", b"dinf", b"ftyp", b"free", b"meta", b"ilst"}
 
 
@@ -61,8 +61,8 @@ def transform(node, rng, p_ins=0.5, p_perm=0.5, p_large=0.25, p_pad=0.4):
             n.items.insert(rng.randint(first, len(n.items)), junk(rng))
     if n.typ in PADDABLE and rng.random() < p_pad:
         n.pad = bytes(rng.randrange(256) for _ in range(rng.choice([1, 4, 8, 13])))
-    if n.typ == b"esds" and p_pad > 0 and rng.random() < 0.5:
-        n.pad = b"\0"      # exactly one spare byte behind the ES descriptor: a descriptor loop reads its tag and the length byte beyond the box before it is repositioned
+        if rng.random() < 0.5:
+            n.pad = bytes(len(n.pad))      # zero bytes: whole spare words that would read as (small) table entries if a decoder took them for entries
     if n.typ in LARGE_OK and rng.random() < p_large:
         n.large = True
     return n
